@@ -53,6 +53,9 @@ impl Drop for Payload {
             self.reg.early_drops.fetch_add(1, Ordering::Relaxed);
         }
         unsafe { std::ptr::write_volatile(&mut self.canary, 0xDEAD_DEAD_DEAD_DEAD) };
+        if self.reg.panic_on_drop[self.id as usize].swap(false, Ordering::Relaxed) && !std::thread::panicking() {
+            panic!("{}", crate::m_boxcar::DROP_PANIC);
+        }
     }
 }
 
@@ -1761,7 +1764,7 @@ pub fn check_drops(w: &World, rep: &mut Report, props: &[&str], extra: &J) {
     // never settles, so this grace period cannot hide one.
     let deadline = Instant::now() + Duration::from_millis(10_000);
     loop {
-        let settled = (0..n as usize).all(|i| w.reg.created[i].load(Ordering::Relaxed) == w.reg.drops[i].load(Ordering::Relaxed));
+        let settled = (0..n as usize).all(|i| w.reg.created[i].load(Ordering::Relaxed) == w.reg.drops[i].load(Ordering::Relaxed) || w.reg.leak_ok[i].load(Ordering::Relaxed));
         if settled || Instant::now() > deadline {
             break;
         }
@@ -1774,7 +1777,7 @@ pub fn check_drops(w: &World, rep: &mut Report, props: &[&str], extra: &J) {
         let c = w.reg.created[i].load(Ordering::Relaxed);
         let d = w.reg.drops[i].load(Ordering::Relaxed);
         created += c as u64;
-        if c != d {
+        if c != d && !(d < c && w.reg.leak_ok[i].load(Ordering::Relaxed)) {
             if first_bad.is_none() {
                 first_bad = Some(format!("id {i}: created {c}, dropped {d}"));
             }
